@@ -11,7 +11,7 @@ from ..core import mkstate, cj, enc, enc_rows, dec
 
 LEVEL = 'exploration'
 D = decimal.Decimal
-NUMS = [-2, -1.5, -1.0000000000000002, -1.0, 0, 1, 1.5, 10, 2 ** 24, 2 ** 24 + 1, D('2.5'), 1e10, -1e-3, 2 ** 53, 2 ** 53 + 1, -1e300, -1e200, 1e300, 5e-324]
+NUMS = [-2, -1.5, -1.0000000000000002, -1.0, D('-1E-400'), 0, 1, 1.5, 10, 2 ** 24, 2 ** 24 + 1, D('2.5'), 1e10, -1e-3, 2 ** 53, 2 ** 53 + 1, -1e300, -1e200, 1e300, 5e-324]
 TEXTS = ['', 'a', 'a0', 'ab', 'ax', 'b', 'B', 'é', '😀']
 
 
